@@ -78,7 +78,7 @@ PROPS = {
                      "Sqlize.C01.indexes_with_dropped_columns", "Sqlize.Abs.Idx.plan_correct", "Sqlize.Abs.Idx.emitSup_correct", "Sqlize.Abs.Idx.dropCols_idxs",
                      "Sqlize.Table.walkIdx_refines_sup", "Sqlize.Spec.execAll_wf",
                      "Sqlize.C01.equal_column_untouched", "Sqlize.Table.walkCols_about", "Sqlize.Table.diffCols1_unchanged_mem",
-                     "Sqlize.C01.schema_on_reference_engine", "Sqlize.schema_spec_up", "Sqlize.execAll_groups", "Sqlize.Migration.migrate_groups", "Sqlize.created_table_spec", "Sqlize.exec_added_idxs", "Sqlize.table_spec_up_any",
+                     "Sqlize.C01.schema_on_reference_engine", "Sqlize.schema_spec_up", "Sqlize.table_stmts_justified", "Sqlize.execAll_groups", "Sqlize.Migration.migrate_groups", "Sqlize.created_table_spec", "Sqlize.exec_added_idxs", "Sqlize.table_spec_up_any",
                      "Sqlize.C01.table_on_reference_engine", "Sqlize.table_spec_up", "Sqlize.execAll_of_colExecAll_full", "Sqlize.exec_idx_step", "Sqlize.execAll_idx", "Sqlize.Spec.execAll_pkin", "Sqlize.Table.walkCols_dropNames",
                      "Sqlize.C01.columns_on_reference_engine", "Sqlize.columns_spec_up", "Sqlize.colExecAll_of_abs", "Sqlize.colExecAll_set", "Sqlize.execAll_of_colExecAll", "Sqlize.added_column_def", "Sqlize.Table.walkCols_stmtCols",
                      "Sqlize.C01.changed_column_modified", "Sqlize.perm_of_not_changed", "Sqlize.ckey_inj", "Sqlize.Table.diff_like", "Sqlize.Table.walkCols_modify",
@@ -104,7 +104,8 @@ PROPS = {
                        "ends with the new side's indexes up to order and its primary key (table_on_reference_engine; same key on both sides, outside the recorded finding); "
                        "and for whole schemas of any size without foreign keys: the printed up migration (CREATE TABLE + indexes + key for new tables, column and index statements for "
                        "common tables, DROP TABLE for old ones) executed by Spec.execAll on the old schema is well-formed at every step and ends in a schema DB.equiv to the new one "
-                       "(schema_on_reference_engine: the 'turns old into new' half of the property on that scope). Not proved: a changed primary key (recorded finding), a COMMENT-only difference, the lift from one table to the whole schema, "
+                       "and every printed statement acts on an element that differs between the two schemas: the executable predicate Spec.c01 (migrates + allJustified, referential checks aside) "
+                       "returns ok (schema_on_reference_engine: the property itself on that scope). Not proved: a changed primary key (recorded finding), a COMMENT-only difference, the lift from one table to the whole schema, "
                        "other dialects; the full statement Sqlize.C01.Statement(_partial) is decided on "
                        "every run by correspondence (model = code on state and text) plus the "
                        "executable predicate Spec.c01 (reference DDL engine) on the migration text the Go code printed.",
